@@ -353,6 +353,10 @@ class TreeSim(taps.Sim):
         elif v > self._upd_tol:
             if root.bankrupt and not self._was_bankrupt:
                 self.violation("bankrupt_spurious", "flagged bankrupt at an update on %s although root value is %r" % (date, v))
+        elif v == 0.0 and self.model.root.first_activity_t is None and self.model.ntrades == 0:
+            # structurally exact zero (nothing has ever moved through the tree): a value that is not negative
+            if root.bankrupt and not self._was_bankrupt:
+                self.violation("bankrupt_spurious", "flagged bankrupt at an update on %s although the strategy is worth exactly 0 (never funded)" % (date,), {"exact_zero": True})
         else:
             self.incon("bankrupt_band")
 
